@@ -66,7 +66,7 @@ def min_image_dist(cell, a, b):
 
 
 def build(cellname, patname, copies, rnd, noise=0.0, decoys=0, mirror_decoys=0, near_miss=0, atol=0.05, straddle=True,
-          pattern_override=None, bent=0, tilt=None):
+          pattern_override=None, bent=0, tilt=None, scramble=False):
     """Returns dict(structure=Atoms, pattern=Atoms, planted=[index tuples in pattern order], poses=[(rot, trans)])."""
     from mofun import Atoms
     cell = CELLS[cellname] if cellname in CELLS else SMALL_CELLS[cellname]
@@ -112,11 +112,15 @@ def build(cellname, patname, copies, rnd, noise=0.0, decoys=0, mirror_decoys=0, 
         pts = rot.apply(P - P.mean(axis=0)) + centre
         if noise:
             pts = pts + np.array([[rnd.uniform(-noise, noise) for _ in range(3)] for _ in pts])
-        idxs = []
-        for e, p in zip(els, pts):
-            idxs.append(len(elements))
-            elements.append(e)
-            positions.append(wrap(cell, p))
+        idxs = [None] * len(pts)
+        order = list(range(len(pts)))
+        if scramble:
+            # the atoms of a copy are listed in the structure in another order than in the pattern (reversed / shuffled)
+            order = order[::-1] if ci % 2 == 0 else rnd.sample(order, len(order))
+        for k in order:
+            idxs[k] = len(elements)
+            elements.append(els[k])
+            positions.append(wrap(cell, pts[k]))
         if kind == 'copy':
             planted.append(tuple(idxs))
             poses.append((rot, centre))
@@ -168,6 +172,8 @@ PATTERNS['long5'] = ('CNOFS', [[0., 0, 0], [1.4, 0.5, 0.1], [2.9, -0.4, 0.6], [4
 # a wide, nearly planar but chiral pattern: four atoms in a plane (no symmetry), the fifth 0.25 A above it -- its mirror image through the
 # plane differs by 0.5 A in one atom only
 PATTERNS['nearflat5'] = ('CNOFS', [[0., 0, 0], [4.0, 0, 0], [1.5, 3.5, 0], [-2.5, 2.0, 0], [1.0, 1.2, 0.25]])
+# two atoms of the same element first, exchanged by a mirror plane (through C, H, F) but by no proper rotation: S2CHF like CHFCl2
+PATTERNS['mirror5'] = ('SSCHF', [[1.45, 0.9, -0.55], [-1.45, 0.9, -0.55], [0., 0, 0], [0, -0.75, -0.8], [0, -0.4, 1.3]])
 PATTERNS['pair-y'] = ('CN', [[0., 0, 0], [0., 1.2, 0]])
 PATTERNS['collinear3-y'] = ('CNO', [[0., 0, 0], [0, 1.1, 0], [0, 2.5, 0]])
 PATTERNS['planar3-y'] = ('CNO', [[0., 0, 0], [0.1, 1.9, 0], [1.2, 0.5, 0]])
